@@ -8,7 +8,7 @@ def famTrav (kv : KV) : String × String :=
   let blocks := parseBlocks (KV.getD kv "blocks" "-")
   let get : Cid → Bytes := fun c => ((blocks.find? fun b => b.cid == c).map (·.data)).getD []
   let loads := parseCids (KV.getD kv "loads" "-")
-  let roots := if kind == "writecar" then parseCids (KV.getD kv "roots" "-")
+  let roots := if kind == "writecar" || kind == "rootselmulti" then parseCids (KV.getD kv "roots" "-")
                else (parseCid (KV.getD kv "root" "")).toList
   let dp := KV.nat kv "dp"
   let ip := KV.nat kv "ip"
@@ -30,7 +30,7 @@ def famTrav (kv : KV) : String × String :=
     else if kind == "v2sel" then s!"r=ok n={total} len={total} hdr={51 + dp}.{countedSize roots get loads}.{ioff} v1={hexOr v1}"
     else if kind == "v1" then s!"r=ok n={v1.length} v1={hexOr v1}"
     else if kind == "file" then s!"r=ok len={total} hdr={51 + dp}.{v1.length}.{ioff} v1={hexOr v1}"
-    else if kind == "rootsel" then
+    else if kind == "rootsel" || kind == "rootselmulti" then
       let cbs := callbacks roots get loads
       let cb := if cbs.isEmpty then "-" else String.intercalate "," (cbs.map fun p => s!"{cidHex p.1}:{p.2.1}:{p.2.2}")
       s!"r=ok v1={hexOr v1} cb={cb} size={countedSize roots get loads} cids={cidsStr (dedupFirst loads)} dumpsame=1"
